@@ -387,25 +387,33 @@ pub fn bulk_facts(n: u32, mult: u32, recs: u32) -> Facts {
 }
 
 /// Facts with many records: N_gene = `ng`, N_omim = `no`, N_orpha = `nr` (each up to the documented
-/// limit 65 535) on seven terms: a chain 1 <- 118 <- 10 <- 11 <- 12, a side branch 118 <- 20 with
-/// 12 below it as well, and a modifier root 5. Records are spread over the terms by residue; every
-/// 11th record has no term, every 7th has two.
+/// limit 65 535) on nine terms: a chain 1 <- 118 <- 10 <- 11 <- 12, a side branch 118 <- 20 with
+/// 12 below it as well, a modifier root 5, and two children 30, 31 of 118 that carry all records but
+/// one each. Records are spread over the other terms by residue; three have no term, every 7th has two.
 pub fn large_record_facts(ng: u32, no: u32, nr: u32) -> Facts {
     let mut f = Facts::default();
     f.version = (2024, 1, 1);
-    for (id, name) in [(1u32, "All"), (118, "Phenotypic abnormality"), (10, "a"), (11, "b"), (12, "c"), (20, "d"), (5, "Mode of inheritance")] {
+    for (id, name) in [(1u32, "All"), (118, "Phenotypic abnormality"), (10, "a"), (11, "b"), (12, "c"), (20, "d"), (5, "Mode of inheritance"), (30, "nearly all"), (31, "nearly all too")] {
         f.terms.push(TermFact { id, name: name.into(), obsolete: false, replacement: None });
     }
-    f.edges = vec![(118, 1), (5, 1), (10, 118), (11, 10), (12, 11), (20, 118), (12, 20)];
+    f.edges = vec![(118, 1), (5, 1), (10, 118), (11, 10), (12, 11), (20, 118), (12, 20), (30, 118), (31, 118)];
     let spots = [12u32, 11, 10, 20, 118, 12, 20, 11];
     for (k, n) in [(GENE, ng), (OMIM, no), (ORPHA, nr)] {
         for r in 0..n {
             let rid = r + 1;
             let mut terms = vec![];
-            if r % 11 != 10 {
+            // three records of each kind have no term at all
+            if ![5, 16, 27].contains(&r) {
                 terms.push(spots[(r as usize + k) % spots.len()]);
                 if r % 7 == 0 {
                     terms.push(spots[(r as usize / 7 + 3) % spots.len()]);
+                }
+                // two sibling terms carry nearly every record (information content of about 4/N each)
+                if r != 1 {
+                    terms.push(30);
+                }
+                if r != 2 {
+                    terms.push(31);
                 }
             }
             terms.sort_unstable();
